@@ -95,7 +95,7 @@ impl<S: Stream + Unpin> StreamSource<S> {
 //@ entry
         let mut end_of_stream = false;
         let ghost mut seen: Seq<Option<S::Item>> = Seq::empty();
-//@ before <<if let Some(evt) = evt {>>
+//@ atloopstart <<while let>>
                     proof { seen = seen.push(evt); }
 //@ loop 1
             invariant_except_break
